@@ -291,6 +291,8 @@ class PrecipitateModel (PrecipitateBase):
 
         x = [self.PBM[p].PSD for p in range(len(self.phases))]
         Y = self._calcNucleationRate(self.pData.time[self.pData.n], x, Y)
+        #There is no previous growth rate to fall back on if the first equilibrium calculation does not converge
+        self.growth = [np.zeros(self.PBM[p].bins + 1) for p in range(len(self.phases))]
         self.growth, Y = self._growthRate(Y)
         self.pData.setSlice(Y, self.pData.n)
     
